@@ -20,7 +20,7 @@ TargetKinds == {"local", "aux1", "aux2", "aux3", "trans", "selfrec", "mutual", "
 Shapes      == {"prim", "object", "arrayref", "tuple", "allof", "map", "nested", "ptrarray", "ref"}
 HolderKinds == {"prop", "items", "tuple", "addprops", "additems", "allof", "alias", "opbody", "pathbody",
                 "code", "default", "sharedparam", "sharedresp", "nested", "opnested", "opitems",
-                "auxresp", "auxparam", "auxpathitem", "unusedparam", "unusedresp", "unusedalias", "casesiblings", "pathbodyinline",
+                "auxresp", "auxparam", "auxpathitem", "unusedparam", "unusedresp", "unusedalias", "casesiblings", "pathbodyinline", "oddcode",
                 "patprop", "anyof", "oneof", "not", "nesteddefs"}
 AuxHolders  == {"auxresp", "auxparam", "auxpathitem"}
 SecondKinds == {"none", "code", "prop2", "same"}
@@ -170,6 +170,10 @@ Holder(h, REF) ==
     [] h = "code"     -> inOp(PathItemWith([get |-> Op([responses |-> Mk(<<>>, ("200" :> Resp([schema |-> REF])))])]))
     [] h = "default"  -> inOp(PathItemWith([delete |-> Op([responses |-> Mk(<<>>, [default |-> Resp([schema |-> REF])])])]))
     [] h = "opnested" -> inOp(PathItemWith([patch |-> Op([responses |-> Mk(<<>>, ("201" :> Resp([schema |-> ObjP([N_9 |-> REF, N_10 |-> Str])])))])]))
+    \* inline complex schemas under status codes that net/http has no text for (and a 3-digit code above 599)
+    [] h = "oddcode"  -> inOp(PathItemWith([get |-> Op([responses |-> Mk(<<>>, ("299" :> Resp([schema |-> ObjP([N_9 |-> REF, N_10 |-> Str])]) @@
+                                                                                 "520" :> Resp([schema |-> Mk([type |-> "array"], [items |-> ObjP([N_11 |-> REF])])]) @@
+                                                                                 "200" :> Resp([schema |-> REF])))])]))
     [] h = "opitems"  -> inOp(PathItemWith([head |-> Op([responses |-> Mk(<<>>, ("200" :> Resp([schema |-> Mk([type |-> "array"], [items |-> REF])])))])]))
     [] h \in AuxHolders -> [defs |-> <<>>, params |-> <<>>, resps |-> <<>>, path |-> AuxHolderRoot(h)]
     \* shared objects that no operation uses (they disappear with RemoveUnused, and so must what only they refer to)
@@ -240,7 +244,9 @@ Assemble(t, s, h, h2, c) ==
       paths  == ("P_1" :> H.path) @@ S2.path @@ C.path @@ dia @@ xp
       extra  == (IF DOMAIN params = {} THEN <<>> ELSE [parameters |-> Mk(<<>>, params)]) @@
                 (IF DOMAIN resps = {} THEN <<>> ELSE [responses |-> Mk(<<>>, resps)])
-      root   == [Skeleton EXCEPT !.ch = ([paths |-> Mk(<<>>, paths), definitions |-> Mk(<<>>, defs)] @@ extra) @@ @]
+      \* a root without any definition has no "definitions" section at all (the code then starts from a nil map)
+      dsec   == IF DOMAIN defs = {} THEN <<>> ELSE [definitions |-> Mk(<<>>, defs)]
+      root   == [Skeleton EXCEPT !.ch = ([paths |-> Mk(<<>>, paths)] @@ dsec @@ extra) @@ @]
       auxs   == C.aux @@ T.aux
       auxs2  == IF h \in AuxHolders
                 THEN [d \in DOMAIN auxs |-> IF d = "aux1" THEN [auxs[d] EXCEPT !.ch = AuxHolderDoc(h, R) @@ @] ELSE auxs[d]]
